@@ -80,6 +80,9 @@ def password_s(draw, weights):
             pw = draw(st.sampled_from(["p", "Zq", "pw-"])) * draw(st.sampled_from([150, 230, 440]))      # near the longest a 512-byte line can carry
             pw = pw[:470]
         return "%s%s%s %s" % (m, sp, draw(acct_s), pw)
+    if draw(st.integers(0, 30)) == 0:
+        # (as a challenge response) far longer than an IRC line - the daemon reads lines of any length
+        return draw(st.sampled_from(["r", "Xy", "resp "])) * draw(st.sampled_from([300, 520, 1100]))
     return draw(st.sampled_from(["plain", "+x onlyone", "x a b", " +x a b", "+x", "+!", "-", "secret word", "+xaccount pass",
                                  # a mode prefix asking for +! / -! but no '<account> <password>' pair: not a password at all
                                  "+! onlyone", "+x! hunter2", "-! one", "+!   lonely", "+x!", "+!x "]))
